@@ -13,5 +13,4 @@ CONSTANTS
   TreeIn <- TreeA
   Threads <- ThreadsA
   Prog <- ProgA
-INVARIANTS ConcSafe HeadStored
-PROPERTIES ConcHeadMonotone
+INVARIANTS FinalSequential
